@@ -1,7 +1,7 @@
 #!/bin/bash
 # tools/run_seeded.sh [dir ...] : for every stored seeded change (default: all of seeded/*/), apply it to /repo, run the
 # quick check of its property, restore /repo, and record whether the check reported a violation.  Writes seeded/RESULTS.md.
-cd /verif
+cd "$(dirname "$(readlink -f "$0")")/.."
 git -C /repo status --short | grep -v '^??' && { echo "/repo dirty"; exit 2; }
 DIRS=${@:-$(ls -d seeded/*/ | sort)}
 OUT=seeded/RESULTS.md
@@ -9,7 +9,7 @@ OUT=seeded/RESULTS.md
 for d in $DIRS; do
   d=${d%/}; name=$(basename $d); id=${name%%_*}
   [ -f $d/patch.diff ] || continue
-  git -C /repo apply /verif/$d/patch.diff || { echo "| $name | $id | patch does not apply | | |" >> $OUT; continue; }
+  git -C /repo apply "$PWD/$d/patch.diff" || { echo "| $name | $id | patch does not apply | | |" >> $OUT; continue; }
   log=$(mktemp)
   timeout 3000 ./check $id quick > $log 2>&1; rc=$?
   git -C /repo checkout -- .
